@@ -41,8 +41,8 @@ struct CompD {
 #[derive(Clone, Debug, PartialEq)]
 enum Dec {
     Err,
-    Simple { head: String, ends: Vec<u16>, pts: Vec<(i32, i32, u8)>, fast: Option<Vec<(i32, i32, u8)>>, flag_bytes_le_points: bool, overshoot: bool },
-    Composite { bbox: String, comps: Vec<CompD> },
+    Simple { head: String, ends: Vec<u16>, pts: Vec<(i32, i32, u8)>, fast: Option<Vec<(i32, i32, u8)>>, instr: Vec<u8>, flag_bytes_le_points: bool, overshoot: bool },
+    Composite { bbox: String, comps: Vec<CompD>, instr: Option<Vec<u8>> },
 }
 
 /// number of flag bytes the checked reader finds; Err(true): a repeat run overshoots the point count (FreeType,
@@ -88,6 +88,7 @@ fn decode(bytes: &[u8]) -> Dec {
                 ends,
                 pts,
                 fast,
+                instr: g.instructions().to_vec(),
                 flag_bytes_le_points: fl.map(|l| l <= n).unwrap_or(false),
                 overshoot: fl == Err(true),
             }
@@ -105,7 +106,7 @@ fn decode(bytes: &[u8]) -> Dec {
                     t: [c.transform.xx.to_bits(), c.transform.yx.to_bits(), c.transform.xy.to_bits(), c.transform.yy.to_bits()],
                 })
                 .collect();
-            Dec::Composite { bbox: format!("{} {} {} {}", g.x_min(), g.y_min(), g.x_max(), g.y_max()), comps }
+            Dec::Composite { bbox: format!("{} {} {} {}", g.x_min(), g.y_min(), g.x_max(), g.y_max()), comps, instr: g.instructions().map(|i| i.to_vec()) }
         }
     }
 }
@@ -117,18 +118,23 @@ fn fmt_pts(v: &[(i32, i32, u8)]) -> String {
 fn fmt_dec(d: &Dec) -> String {
     match d {
         Dec::Err => "err".into(),
-        Dec::Simple { head, ends, pts, fast, .. } => format!(
-            "S {head} E {} P {} F {}",
+        Dec::Simple { head, ends, pts, fast, instr, .. } => format!(
+            "S {head} E {} P {} F {} I {}",
             join(ends),
             fmt_pts(pts),
             match fast {
                 None => "none".to_string(),
                 Some(f) => fmt_pts(f),
-            }
+            },
+            hex(instr)
         ),
-        Dec::Composite { bbox, comps } => format!(
-            "C {bbox} K {}",
-            list_or(comps.iter().map(|c| format!("{} {} {} {} {} {} {}", c.flags, c.gid, c.anchor, c.t[0], c.t[1], c.t[2], c.t[3])).collect())
+        Dec::Composite { bbox, comps, instr } => format!(
+            "C {bbox} K {} I {}",
+            list_or(comps.iter().map(|c| format!("{} {} {} {} {} {} {}", c.flags, c.gid, c.anchor, c.t[0], c.t[1], c.t[2], c.t[3])).collect()),
+            match instr {
+                None => "none".to_string(),
+                Some(i) => hex(i),
+            }
         ),
     }
 }
@@ -137,7 +143,7 @@ fn fmt_dec(d: &Dec) -> String {
 /// without image
 fn rename(d: &Dec, flags: u16, map: &[(u32, u32)]) -> Option<Dec> {
     match d {
-        Dec::Composite { bbox, comps } => {
+        Dec::Composite { bbox, comps, instr } => {
             let mut out = vec![];
             for (k, c) in comps.iter().enumerate() {
                 let new = map.iter().find(|(o, _)| *o == c.gid)?.1;
@@ -150,9 +156,18 @@ fn rename(d: &Dec, flags: u16, map: &[(u32, u32)]) -> Option<Dec> {
                 }
                 out.push(CompD { flags: f, gid: new & 0xFFFF, anchor: c.anchor.clone(), t: c.t });
             }
-            Some(Dec::Composite { bbox: bbox.clone(), comps: out })
+            Some(Dec::Composite { bbox: bbox.clone(), comps: out, instr: if flags & F_NO_HINTING != 0 { None } else { instr.clone() } })
         }
-        other => Some(other.clone()),
+        Dec::Simple { head, ends, pts, fast, instr, flag_bytes_le_points, overshoot } => Some(Dec::Simple {
+            head: head.clone(),
+            ends: ends.clone(),
+            pts: pts.clone(),
+            fast: fast.clone(),
+            instr: if flags & F_NO_HINTING != 0 { vec![] } else { instr.clone() },
+            flag_bytes_le_points: *flag_bytes_le_points,
+            overshoot: *overshoot,
+        }),
+        Dec::Err => Some(Dec::Err),
     }
 }
 
@@ -189,9 +204,10 @@ fn one_record(s: &mut Session, st: &mut Stats, label: &str, rec: &[u8], flags: u
     if !b.is_empty() {
         let d1 = decode(&b);
         let ok = match (&d0, &d1) {
-            (Dec::Simple { head: h0, ends: e0, pts: p0, fast: f0, flag_bytes_le_points: le, .. }, Dec::Simple { head: h1, ends: e1, pts: p1, fast: f1, .. }) => {
+            (Dec::Simple { head: h0, ends: e0, pts: p0, fast: f0, instr: i0, flag_bytes_le_points: le, .. }, Dec::Simple { head: h1, ends: e1, pts: p1, fast: f1, instr: i1, .. }) => {
                 s.count(if *le { "outline:simple:written:flag-bytes<=points" } else { "outline:simple:written:flag-bytes>points" });
-                h0 == h1 && e0 == e1 && p0 == p1 && (!*le || f0 == f1)
+                let want_i: &[u8] = if flags & F_NO_HINTING != 0 { &[] } else { i0 };
+                h0 == h1 && e0 == e1 && p0 == p1 && (!*le || f0 == f1) && want_i == &i1[..]
             }
             (Dec::Composite { .. }, Dec::Composite { .. }) => {
                 s.count("outline:composite:written");
